@@ -118,6 +118,32 @@ def handle (j : Json) : Except String Json := do
     match (applyOps v ops >>= fun v' => saveFile v' minor sv asw) with
     | .ok bs => pure (Json.mkObj [("bytes", jl bs)])
     | .error e => pure (errJson e)
+  | "history" =>
+    let v ← vtfOf (← j.getObjVal? "vtf")
+    let ops ← (← (← j.getObjVal? "ops").getArr?).toList.mapM fun e => do
+      let o ← nat e "o"
+      let a ← (match e.getObjVal? "a" with
+        | .ok x => Wire.intList x
+        | .error _ => pure [])
+      let d ← (match e.getObjVal? "d" with
+        | .ok x => Wire.natList x
+        | .error _ => pure [])
+      let n (i : Nat) : Nat := (a.getD i 0).toNat
+      let key : Key := (n 0, n 1, n 2)
+      pure (match o with
+        | 0 => HOp.clearMips (n 0)
+        | 1 => HOp.compute (n 0)
+        | 2 => HOp.loadAll
+        | 3 => HOp.save (n 0) (n 1) (n 2 != 0)
+        | 4 => HOp.frameClear key
+        | 5 => HOp.setData key d
+        | 6 => HOp.setPixel key (a.getD 3 0) (a.getD 4 0) d
+        | 7 => HOp.fill key d
+        | 8 => HOp.setFmt (n 0)
+        | _ => HOp.setLowFmt (n 0))
+    pure (Json.mkObj [("saves", Json.arr ((runHistory v ops).map fun r => match r with
+      | .ok bs => Json.mkObj [("bytes", jl bs)]
+      | .error e => errJson e).toArray)])
   | "fsize" =>
     pure (Json.mkObj [("n", jn (frameSize (fmtOf (← nat j "fmt")) (← nat j "w") (← nat j "h")))])
   | "rescale_ok" =>
